@@ -115,6 +115,12 @@ def _det_cases():
     for i, (g_, ps) in enumerate(NEAR_BASE):
         yield ("kak", {"gate": "near:" + g_, "params": ps, "rot": NEAR_ROTS[i % len(NEAR_ROTS)], "eps": NEAR_EPS[i % len(NEAR_EPS)],
                        "left": i % 3 == 1, "phase": 0.7 if i % 4 == 2 else 0.0, "always_oracle": True})
+    # "local products" reached through the KAK path, whatever the seed: UnitaryGates without any non-local content (Weyl coordinates 0,0,0):
+    # products of Haar-random one-qubit unitaries, layers of rx/ry/rz rotations, with a global phase; the local factors K1, K2 are all there is
+    for i in range(4):
+        yield ("kak", {"gate": "weyl", "params": [0, 0, 0], "seeds": [9100 + 4 * i + j for j in range(4)], "always_oracle": True})
+    for ps in ([61, 62], [[0.7, 1.1, 0.4], [-0.3, 0.9, 1.6]], [63, [1.2, 0.0, -0.8], 0.9], [[0.0, 0.0, 0.6], [0.0, 1.3, 0.0], -0.4]):
+        yield ("kak", {"gate": "unitary_kron", "params": ps, "always_oracle": True})
     for i, (g_, ps) in enumerate(BOX_INNER):
         yield ("refuse", {"gate": "box:" + g_, "params": ps, "order": [1, 0], "depth": 1, **extra})
         if i % 4 == 0:
